@@ -27,8 +27,11 @@ package gtree
 //@   requires grown [C01]: g != nil ==> grown(g.lastNodeFormat, g.intermedialNodeFormat, n)
 //@   requires valid [C07,C09]: g != nil && g.enabledValidation ==> validated(n)
 
+// errSent: some goroutine has reported an error on a stage's error channel
+//@ ghost var errSent bool
 //@ channel errChan(e)
 //@   requires err [C14]: e != nil
+//@   records errSent := true
 
 // ---- splitter (input_spliter.go)
 //@ func gtree.split
@@ -37,10 +40,10 @@ package gtree
 //@   carries errc: errChan
 //@   carries result0: blockChan
 //@   carries result1: errChan
-//@   modifies bufio.Scanner.pos, bufio.Scanner.failed
+//@   modifies bufio.Scanner.pos, bufio.Scanner.failed, errSent
 //@ closure gtree.split#1
 //@   requires nn: ctx != nil && sc != nil && 0 <= sc.pos && sc.pos <= len(sc.lines)
-//@   modifies bufio.Scanner.pos, bufio.Scanner.failed
+//@   modifies bufio.Scanner.pos, bufio.Scanner.failed, errSent
 //@ loop gtree.split#1#1
 //@   invariant rng: 0 <= sc.pos && sc.pos <= len(sc.lines)
 
@@ -54,10 +57,10 @@ package gtree
 //@   carries errc: errChan
 //@   carries result0: rootChan
 //@   carries result1: errChan
-//@   modifies Node.children, Node.parent, list.List.view, list.Element.backOf, counter.n, bufio.Scanner.pos, bufio.Scanner.failed, markdown.Parser.isSharpRoot, markdown.Parser.spaces, markdown.Parser.sep
+//@   modifies Node.children, Node.parent, list.List.view, list.Element.backOf, counter.n, bufio.Scanner.pos, bufio.Scanner.failed, markdown.Parser.isSharpRoot, markdown.Parser.spaces, markdown.Parser.sep, errSent
 //@ closure gtree.rootGeneratorPipeline.generate#1
 //@   requires nn: rg != nil && rg.nodeGenerator != nil && rg.nodeGenerator.parser != nil && md.parserOK(rg.nodeGenerator.parser) && ctx != nil
-//@   modifies Node.children, Node.parent, list.List.view, list.Element.backOf, counter.n, bufio.Scanner.pos, bufio.Scanner.failed, markdown.Parser.isSharpRoot, markdown.Parser.spaces, markdown.Parser.sep
+//@   modifies Node.children, Node.parent, list.List.view, list.Element.backOf, counter.n, bufio.Scanner.pos, bufio.Scanner.failed, markdown.Parser.isSharpRoot, markdown.Parser.spaces, markdown.Parser.sep, errSent
 //@ loop gtree.rootGeneratorPipeline.generate#1#1
 //@   invariant parser: md.parserOK(rg.nodeGenerator.parser)
 //@ func gtree.rootGeneratorPipeline.worker
@@ -66,7 +69,7 @@ package gtree
 //@   carries blocks: blockChan
 //@   carries rootc: rootChan
 //@   carries errc: errChan
-//@   modifies Node.children, Node.parent, list.List.view, list.Element.backOf, counter.n, bufio.Scanner.pos, bufio.Scanner.failed, markdown.Parser.isSharpRoot, markdown.Parser.spaces, markdown.Parser.sep
+//@   modifies Node.children, Node.parent, list.List.view, list.Element.backOf, counter.n, bufio.Scanner.pos, bufio.Scanner.failed, markdown.Parser.isSharpRoot, markdown.Parser.spaces, markdown.Parser.sep, errSent
 //@ loop gtree.rootGeneratorPipeline.worker#1
 //@   invariant ok: md.parserOK(rg.nodeGenerator.parser)
 //@ loop gtree.rootGeneratorPipeline.worker#2
@@ -82,16 +85,16 @@ package gtree
 //@   carries errc: errChan
 //@   carries result0: grownChan(dg.defaultGrowerSimple)
 //@   carries result1: errChan
-//@   modifies Node.brnch.value, Node.brnch.path
+//@   modifies Node.brnch.value, Node.brnch.path, errSent
 //@ closure gtree.defaultGrowerPipeline.grow#1
 //@   requires nn: dg != nil && dg.defaultGrowerSimple != nil && ctx != nil
-//@   modifies Node.brnch.value, Node.brnch.path
+//@   modifies Node.brnch.value, Node.brnch.path, errSent
 //@ func gtree.defaultGrowerPipeline.worker
 //@   requires nn: dg != nil && dg.defaultGrowerSimple != nil && ctx != nil && wg != nil
 //@   carries roots: rootChan
 //@   carries nodes: grownChan(dg.defaultGrowerSimple)
 //@   carries errc: errChan
-//@   modifies Node.brnch.value, Node.brnch.path
+//@   modifies Node.brnch.value, Node.brnch.path, errSent
 //@ func gtree.nopGrowerPipeline.grow
 //@   requires nn: ctx != nil
 //@   carries roots: rootChan
@@ -99,25 +102,31 @@ package gtree
 //@   carries errc: errChan
 //@   carries result0: grownChan(nil)
 //@   carries result1: errChan
+//@   modifies errSent
 //@ closure gtree.nopGrowerPipeline.grow#1
 //@   requires nn: ctx != nil
+//@   modifies errSent
 
 // ---- spreader stage (pipeline_tree_spreader.go)
-// text: the workers print one root at a time (the lock is not modelled); the writer error of spreadBranch is dropped by
-// the worker (not claimed: C14 is stated for the simple mode)
+// text: the workers print one root at a time (the lock is not modelled); a writer error of spreadBranch must be reported
+// on the stage's error channel (C14, per goroutine: that the call then returns it is handlePipelineErr's business)
 //@ func gtree.defaultSpreaderPipeline.spread
 //@   requires nn: ds != nil && ds.defaultSpreaderSimple != nil && ctx != nil
 //@   carries roots: grownChan($g)
 //@   carries errc: errChan
 //@   carries result0: errChan
-//@   modifies out, wfail, defaultSpreaderSimple.w
+//@   modifies out, wfail, defaultSpreaderSimple.w, errSent
 //@ closure gtree.defaultSpreaderPipeline.spread#1
 //@   requires nn: ds != nil && ds.defaultSpreaderSimple != nil && ctx != nil
-//@   modifies out, wfail, defaultSpreaderSimple.w
+//@   modifies out, wfail, defaultSpreaderSimple.w, errSent
 //@ func gtree.defaultSpreaderPipeline.worker
 //@   requires nn: ds != nil && ds.defaultSpreaderSimple != nil && ctx != nil && wg != nil
 //@   carries roots: grownChan($g)
-//@   modifies out, wfail
+//@   carries errc: errChan
+//@   ensures reported [C14]: wfail && !old(wfail) ==> errSent
+//@   modifies out, wfail, errSent
+//@ loop gtree.defaultSpreaderPipeline.worker#1
+//@   invariant reported [C14]: wfail && !old(wfail) ==> errSent
 
 // dry run: the report of each root goes through one bufio.Writer; the stage requires a validating grower (C09: dry run
 // rejects what the real run rejects because of names)
@@ -127,18 +136,19 @@ package gtree
 //@   requires validating [C09,C07]: g != nil ==> g.enabledValidation
 //@   carries errc: errChan
 //@   carries result0: errChan
-//@   modifies out, wfail, counter.n, spText
+//@   modifies out, wfail, counter.n, spText, errSent
 //@   after make: spText := ""
 // (functional clause, per goroutine: what this goroutine hands to the writer is, root by root, the dry-run report
 // specDryRoot of the roots it received - counters reset per root; spText accumulates what is owed, as on the simple route)
 //@ closure gtree.colorizeSpreaderPipeline.spread#1
 //@   requires nn: cs != nil && cs.colorizeSpreaderSimple != nil && colorizeOK(cs.colorizeSpreaderSimple) && ctx != nil
 //@   requires start: spText == ""
-//@   modifies out, wfail, counter.n, spText
+//@   modifies out, wfail, counter.n, spText, errSent
 //@   after spreadBranch: spText := spText ++ specDryRoot(cs.colorizeSpreaderSimple.fileColor, cs.colorizeSpreaderSimple.dirColor, cs.colorizeSpreaderSimple.fileConsiderer.extensions, arg0)
 //@ loop gtree.colorizeSpreaderPipeline.spread#1#1
 //@   invariant ok: colorizeOK(cs.colorizeSpreaderSimple) && bw != nil && bw.under == w
 //@   invariant sofar [C09]: out[w] ++ bw.pending == old(out[w]) ++ spText && wfail == old(wfail)
+//@   invariant reported [C14]: wfail && !old(wfail) ==> errSent
 
 // encoded output: one encoder per run (C04), Encode once per root received
 //@ contract formattedSpreadPipelineSpec
@@ -146,15 +156,17 @@ package gtree
 //@   carries roots: grownChan($g)
 //@   carries errc: errChan
 //@   carries result0: errChan
-//@   modifies out, wfail, encTrace, encoders
+//@   modifies out, wfail, encTrace, encoders, errSent
 //@ applies formattedSpreadPipelineSpec to gtree.formattedSpreaderPipeline.spread[jsonNode], gtree.formattedSpreaderPipeline.spread[yamlNode], gtree.formattedSpreaderPipeline.spread[tomlNode]
 //@ contract formattedSpreadPipelineBody
 //@   requires nn: f != nil && f.encode != nil && f.formattedRoot != nil && ctx != nil
-//@   modifies out, wfail, encTrace, encoders
+//@   modifies out, wfail, encTrace, encoders, errSent
 //@   ensures once [C04]: encoders == old(encoders) + 1
+//@   ensures reported [C14]: wfail && !old(wfail) ==> errSent
 //@ applies formattedSpreadPipelineBody to gtree.formattedSpreaderPipeline.spread[jsonNode]#1, gtree.formattedSpreaderPipeline.spread[yamlNode]#1, gtree.formattedSpreaderPipeline.spread[tomlNode]#1
 //@ loop gtree.formattedSpreaderPipeline.spread#1#1
 //@   invariant once [C04]: encoders == old(encoders) + 1
+//@   invariant reported [C14]: wfail && !old(wfail) ==> errSent
 //@ field formattedSpreaderPipeline.encode follows encoderFactory
 //@ field formattedSpreaderPipeline.formattedRoot follows formattedRootFn
 //@ closure gtree.newJSONSpreaderPipeline#1
@@ -174,7 +186,7 @@ package gtree
 //@   assumed
 //@   carries roots: grownChan($g)
 //@   carries result0: errChan
-//@   modifies out, wfail, encTrace, encoders
+//@   modifies out, wfail, encTrace, encoders, errSent
 
 // ---- mkdir stage (pipeline_tree_mkdirer.go): every root it receives comes from a validating grower (C07)
 //@ func gtree.defaultMkdirerPipeline.mkdir
@@ -183,15 +195,15 @@ package gtree
 //@   requires validating [C07]: g != nil ==> g.enabledValidation
 //@   carries errc: errChan
 //@   carries result0: errChan
-//@   modifies fsOps, fsFailed
+//@   modifies fsOps, fsFailed, errSent
 //@ closure gtree.defaultMkdirerPipeline.mkdir#1
 //@   requires nn: dm != nil && dm.defaultMkdirerSimple != nil && dm.defaultMkdirerSimple.fileConsiderer != nil && ctx != nil
-//@   modifies fsOps, fsFailed
+//@   modifies fsOps, fsFailed, errSent
 //@ func gtree.defaultMkdirerPipeline.worker
 //@   requires nn: dm != nil && dm.defaultMkdirerSimple != nil && dm.defaultMkdirerSimple.fileConsiderer != nil && ctx != nil && wg != nil
 //@   carries roots: grownChan($g)
 //@   carries errc: errChan
-//@   modifies fsOps, fsFailed
+//@   modifies fsOps, fsFailed, errSent
 
 // ---- verify stage (pipeline_tree_verifier.go)
 //@ func gtree.defaultVerifierPipeline.verify
@@ -200,15 +212,15 @@ package gtree
 //@   requires validating [C07,C08]: g != nil ==> g.enabledValidation
 //@   carries errc: errChan
 //@   carries result0: errChan
-//@   modifies maps
+//@   modifies maps, errSent
 //@ closure gtree.defaultVerifierPipeline.verify#1
 //@   requires nn: dv != nil && dv.defaultVerifierSimple != nil && ctx != nil
-//@   modifies maps
+//@   modifies maps, errSent
 //@ func gtree.defaultVerifierPipeline.worker
 //@   requires nn: dv != nil && dv.defaultVerifierSimple != nil && ctx != nil && wg != nil
 //@   carries roots: grownChan($g)
 //@   carries errc: errChan
-//@   modifies maps
+//@   modifies maps, errSent
 
 // ---- walk stage (pipeline_tree_walker.go): not under contract. After a callback error the worker goes on with the next
 // root, which the callback protocol of the simple mode (walkCallback: never called again after an error) forbids; C05
@@ -218,7 +230,7 @@ package gtree
 //@   param callback follows walkCallback
 //@   carries roots: grownChan($g)
 //@   carries result0: errChan
-//@   modifies cbTrace, cbFailed, cbLastErr
+//@   modifies cbTrace, cbFailed, cbLastErr, errSent
 
 // ---- the tree (pipeline_tree.go)
 // pipelineTreeOK(t, cfg): t is the treePipeline that newTreePipeline builds for cfg.
